@@ -1,5 +1,7 @@
 import NodisVerif.Model.Block
 import NodisVerif.Proofs.BlockTrace
+import NodisVerif.Proofs.BlockProgPush
+import NodisVerif.Proofs.BlockProgHook
 /-
   C18 — BLPOP/BRPOP: return immediately when a listed key has an element (first key in argument
   order), otherwise wait; a push to a listed key reaches the waiter (no missed wake-up), timeout 0
@@ -363,5 +365,454 @@ example : runAll [] [.reg 1 "a", .try_ 1 "a" true, .unreg 1 "a", .fin 1, .notify
 /-- a pop attempt that panics (key of another type): the call unwinds through its clean-up -/
 example : runAll [] [.reg 1 "a", .reg 1 "b", .try_ 1 "a" false, .abort 1, .unreg 1 "a",
     .unreg 1 "b", .fin 1] = some [] := by decide
+
+/-! ## 9. the CODE of the blocking pops (`Model/BlockProg.lean`) refines the protocol
+
+  `BlockProg` is the program: pcs inside `blockingPop` / `addBlockKeys` / `removeBlockingKeys` / `notifyBlockingKey`
+  and the push around it, one transition per mutex / channel operation or per loop body inside a critical section,
+  any number of threads, any schedule (`Reach σ es`: the system state σ is reached from the initial state by some
+  schedule, `es` are the events emitted on the way; `exec σ sched` is the same for a schedule given as a list).
+  Every event is emitted by the transition that contains its verifTrace call; `notify` and `wake` are the labels of
+  the channel operations next to their hooks (send / receive).  With this labelling every run is a run of the precise
+  protocol semantics `Block.step`; `stepLoose` is needed only for RECORDED traces, where the hook of a `notify` is
+  called before its send and the hook of a `wake` after its receive, so that the report order of those two kinds of
+  events (and of no other) can differ from the order of the channel operations.
+  Helper lemmas: Proofs/BlockProgBase (simulation relation `Inv`, frame lemma), BlockProgSimA/B/C (one lemma per pc,
+  `reach_sim`), BlockProgCor (which pc emits which event, transitions that are never disabled). -/
+
+section Prog
+open NodisVerif.BlockProg
+open NodisVerif.Proofs.BlockProg
+
+/-- THE REFINEMENT.  For every schedule - any number of blocking pops and pushes, any interleaving, any timer firing,
+    panicking pops included - the emitted event sequence is a run of `Block.step` from the empty protocol state, and
+    the final states are related by the simulation relation `Inv` (protocol state of every thread by pc, channel =
+    `buf`, registry = `reg`, lock ownership by pc). -/
+theorem blockprog_refines_block {σ : Sys} {es : List Ev} (h : Reach σ es) :
+    ∃ bs, runAll [] es = some bs ∧ Inv σ bs := by
+  obtain ⟨bs, h1, h2, _⟩ := reach_sim h
+  exact ⟨bs, h1, h2⟩
+
+/-- the same for a schedule given as a list of (thread, choice); such a run is also accepted by the trace check -/
+theorem blockprog_exec_refines_block {sched : List (Tid × Choice)} {σ : Sys} {es : List Ev}
+    (h : exec {} sched = some (σ, es)) :
+    ∃ bs, runAll [] es = some bs ∧ runAllLoose [] es = some bs ∧ Inv σ bs := by
+  have hr : Reach σ es := by simpa using exec_reach Reach.init h
+  obtain ⟨bs, h1, h2⟩ := blockprog_refines_block hr
+  exact ⟨bs, h1, run_is_loose_run h1, h2⟩
+
+/-- what the relation says about a waiter between its registration and its unregistration (pcs r3 ... u1): it exists
+    in the protocol with exactly its argument keys, registered for all of them, `buf` = its channel is full -/
+theorem blockprog_waiter_related {σ : Sys} {es : List Ev} (h : Reach σ es) {t : Tid}
+    (hb : isBody (σ.thr t).pc = true) :
+    ∃ bs st, runAll [] es = some bs ∧ get bs t = some st ∧ st.keys = (σ.thr t).keys ∧
+      st.reg = (σ.thr t).keys ∧ st.buf = σ.sh.full t ∧ (σ.thr t).keys ≠ [] := by
+  obtain ⟨bs, hr, hI⟩ := blockprog_refines_block h
+  have hP := hI.prel t
+  simp only [PRel] at hP
+  cases hpc : (σ.thr t).pc <;> simp only [hpc, isBody] at hb hP <;> try (simp at hb; done)
+  all_goals
+    first
+    | (obtain ⟨_, hne, st, hs, hk1, hk2, hbf, _⟩ := hP; exact ⟨bs, st, hr, hs, hk1, hk2, hbf, hne⟩)
+    | (obtain ⟨hne, st, hs, hk1, hk2, hbf, _⟩ := hP; exact ⟨bs, st, hr, hs, hk1, hk2, hbf, hne⟩)
+
+/-! ### transfer of the protocol theorems to program states -/
+
+/-- NO MISSED WAKE-UP, on program states (transfer of `no_missed_push`).  A thread that is at the `select` of
+    blockingPop (pc w1) with an empty channel has, for EVERY one of its keys k, popped from k without success after
+    which no push to k has sent to its channel: there is no push it has not looked for.  (With a full channel the
+    receive is enabled: `blockprog_full_channel_wakes`.) -/
+theorem blockprog_no_missed_wakeup {σ : Sys} {es : List Ev} (h : Reach σ es) {t : Tid}
+    (hpc : (σ.thr t).pc = .w1) (hb : σ.sh.full t = false) :
+    ∀ k ∈ (σ.thr t).keys, ∃ pre post, es = pre ++ .try_ t k false :: post ∧ Ev.notify t k ∉ post := by
+  obtain ⟨bs, hr, hI⟩ := blockprog_refines_block h
+  have hP := hI.prel t
+  simp only [PRel, hpc] at hP
+  obtain ⟨_, st, hs, hk1, _, hbf, hp, _⟩ := hP
+  intro k hk
+  exact no_missed_push_trace hr hs hp (by rw [hbf, hb]) k (by rw [hk1]; exact hk)
+
+/-- NO MISSED WAKE-UP, ON PROGRAM STATES, FROM THE PUSH SIDE (no protocol event in the statement).  In every reachable
+    state, a thread at the `select` of blockingPop with an empty channel sleeps only on EMPTY lists - except for a list
+    whose push is still on its way to this very channel: a push thread p with that key that has appended and is about
+    to take the registry lock (p2), has it and is about to read the cList (p3), or is in its ForRange with t's channel
+    still ahead (p4, t ∈ todo).  Such a push cannot block (`blockprog_push_never_blocks`,
+    `blockprog_push_waits_only_for_running_holder`), so the wake-up arrives.  The invariant behind it (`Seen`, for every
+    key the thread has already looked at in the current round, at every pc of `look` and of the wait) is proved by
+    induction over the schedule; it needs that no command other than a push makes an empty list non-empty (`Call.env`). -/
+theorem blockprog_sleeper_has_seen_every_push {σ : Sys} {es : List Ev} (h : Reach σ es) {t : Tid}
+    (hpc : (σ.thr t).pc = .w1) (hb : σ.sh.full t = false) :
+    ∀ k ∈ (σ.thr t).keys, σ.sh.lists k = 0 ∨
+      ∃ p, (σ.thr p).key = k ∧ ((σ.thr p).pc = .p2 ∨ (σ.thr p).pc = .p3 ∨
+        ((σ.thr p).pc = .p4 ∧ t ∈ (σ.thr p).todo)) := by
+  obtain ⟨hS, hX⟩ := reach_seen h
+  intro k hk
+  have hi := hX t
+  simp only [idxOk, hpc] at hi
+  have : k ∈ looked (σ.thr t) := by
+    simp only [looked, hpc]
+    rw [List.take_of_length_le hi]; exact hk
+  exact hS t k this hb
+
+/-- the same inside a round of `look` and just before the wait: the keys already tried in this round (argument
+    positions below the loop index) -/
+theorem blockprog_looker_has_seen_every_push {σ : Sys} {es : List Ev} (h : Reach σ es) {t : Tid}
+    (hpc : (σ.thr t).pc = .l1 ∨ (σ.thr t).pc = .w0) (hb : σ.sh.full t = false) :
+    ∀ k ∈ (σ.thr t).keys.take (σ.thr t).i, σ.sh.lists k = 0 ∨ Pending σ t k := by
+  obtain ⟨hS, _⟩ := reach_seen h
+  intro k hk
+  refine hS t k ?_ hb
+  rcases hpc with hpc | hpc <;> simpa [looked, hpc] using hk
+
+/-- a push round starts with the WHOLE cList of its key (p3), sends to its head and drops exactly the head (p4:
+    `notify_origin`), and ends only when nothing is left: every channel registered for the key when the round begins
+    is sent to -/
+theorem blockprog_round_covers_registry {σ σ' : Sys} {t : Tid} {ch : Choice} {e : Option Ev}
+    (h : σ.step t ch = some (σ', e)) :
+    ((σ.thr t).pc = .p3 → (σ'.thr t).todo = σ.sh.regOf (σ.thr t).key ∨ σ.sh.regOf (σ.thr t).key = []) ∧
+    ((σ.thr t).pc = .p4 → (σ'.thr t).pc = .p5 → (σ'.thr t).todo = []) := by
+  unfold Sys.step at h
+  cases hs : tstep σ.sh t (σ.thr t) ch with
+  | none => simp [hs] at h
+  | some r =>
+    obtain ⟨s', l', e'⟩ := r
+    simp only [hs, Option.some.injEq, Prod.mk.injEq] at h
+    obtain ⟨rfl, rfl⟩ := h
+    constructor
+    · intro hpc
+      simp only [tstep, hpc] at hs
+      cases hr : σ.sh.registry (σ.thr t).key with
+      | none => right; simp [Shared.regOf, hr]
+      | some cl =>
+        simp only [hr, Option.some.injEq, Prod.mk.injEq] at hs
+        obtain ⟨_, rfl, _⟩ := hs
+        left; simp [Shared.regOf, hr]
+    · intro hpc hp5
+      simp only [tstep, hpc] at hs
+      cases htd : (σ.thr t).todo with
+      | nil =>
+        simp only [htd, Option.some.injEq, Prod.mk.injEq] at hs
+        obtain ⟨_, rfl, _⟩ := hs
+        simpa using htd
+      | cons c rest =>
+        simp only [htd, Option.some.injEq, Prod.mk.injEq] at hs
+        obtain ⟨_, rfl, _⟩ := hs
+        simp only [upd_self] at hp5 ⊢
+        split at hp5
+        · rename_i he; simpa using he
+        · simp at hp5
+
+/-- ... and a sleeping thread whose channel is full is not stuck: the receive is enabled, emits `wake` and starts a new
+    look at ALL keys (pc l0) -/
+theorem blockprog_full_channel_wakes (σ : Sys) (t : Tid) (hpc : (σ.thr t).pc = .w1) (hb : σ.sh.full t = true) :
+    ∃ σ', σ.step t {} = some (σ', some (.wake t)) ∧ (σ'.thr t).pc = .l0 ∧ σ'.sh.full t = false := by
+  refine ⟨_, by simp [Sys.step, tstep, hpc, hb]; rfl, ?_, ?_⟩ <;> simp
+
+/-- A PUSH NEVER BLOCKS (transfer of `push_never_blocks`): once a push has the registry lock, every one of its steps -
+    the look-up, each non-blocking send, the end of the round, the RUnlock, the commit - is enabled in EVERY state,
+    whatever the channels hold and whatever the waiters are doing -/
+theorem blockprog_push_never_blocks (σ : Sys) (t : Tid) (ch : Choice)
+    (hpc : (σ.thr t).pc = .p3 ∨ (σ.thr t).pc = .p4 ∨ (σ.thr t).pc = .p5 ∨ (σ.thr t).pc = .p6 ∨
+      (σ.thr t).pc = .p7) : ∃ r, σ.step t ch = some r := by
+  obtain ⟨⟨s', l', e⟩, hr⟩ := push_tail_enabled σ.sh t (σ.thr t) ch hpc
+  exact ⟨_, step_of_tstep hr⟩
+
+/-- NO LOCK IS HELD WHILE BLOCKED: in every reachable state the thread that holds the registry lock - exclusively
+    (a waiter registering or unregistering) or shared (a push notifying) - can take its next step, whatever the
+    scheduler chooses.  In particular the sends of a push happen with the lock held shared and cannot block. -/
+theorem blockprog_lock_holder_never_blocked {σ : Sys} {es : List Ev} (h : Reach σ es) {t : Tid}
+    (hh : σ.sh.bmu.writer = some t ∨ t ∈ σ.sh.bmu.readers) (ch : Choice) : ∃ r, σ.step t ch = some r := by
+  obtain ⟨bs, _, hI⟩ := blockprog_refines_block h
+  have hL := hI.lrel t
+  have : holdsW (σ.thr t).pc = true ∨ holdsR (σ.thr t).pc = true :=
+    hh.elim (fun h => Or.inl (hL.1.1 h)) (fun h => Or.inr (hL.2.1 h))
+  obtain ⟨⟨s', l', e⟩, hr⟩ := holder_enabled σ.sh t (σ.thr t) ch this
+  exact ⟨_, step_of_tstep hr⟩
+
+/-- hence the only thing a push that holds its key waits for is the registry lock (pc p2), and then the lock is held
+    exclusively by a thread that is not blocked -/
+theorem blockprog_push_waits_only_for_running_holder {σ : Sys} {es : List Ev} (h : Reach σ es) {t : Tid}
+    (hpc : (σ.thr t).pc = .p2) (ch : Choice) :
+    (∃ r, σ.step t ch = some r) ∨
+      ∃ w, σ.sh.bmu.writer = some w ∧ ∀ ch', ∃ r, σ.step w ch' = some r := by
+  cases hw : σ.sh.bmu.writer with
+  | none => exact Or.inl ⟨_, by simp [Sys.step, tstep, hpc, Mu.canRLock, hw]; rfl⟩
+  | some w => exact Or.inr ⟨w, rfl, fun ch' => blockprog_lock_holder_never_blocked h (Or.inl hw) ch'⟩
+
+/-- the registry lock is exclusive: a writer excludes every reader (and `Inv.lrel`: the writer / the readers are
+    exactly the threads at the pcs of the critical sections) -/
+theorem blockprog_registry_lock_exclusive {σ : Sys} {es : List Ev} (h : Reach σ es) {w : Tid}
+    (hw : σ.sh.bmu.writer = some w) : σ.sh.bmu.readers = [] ∧ holdsW (σ.thr w).pc = true ∧
+      ∀ t, holdsW (σ.thr t).pc = true → t = w := by
+  obtain ⟨bs, _, hI⟩ := blockprog_refines_block h
+  refine ⟨hI.excl (by simp [hw]), (hI.lrel w).1.1 hw, fun t ht => ?_⟩
+  have := (hI.lrel t).1.2 ht
+  rw [hw] at this; exact (Option.some.inj this).symm
+
+/-- NULL ONLY FROM THE TIMER (transfer of `null_only_from_timer`): `timeout` is emitted only by the thread itself,
+    at its `select`, and only when its timeout is positive ... -/
+theorem blockprog_timeout_needs_timer {σ σ' : Sys} {t w : Tid} {ch : Choice}
+    (h : σ.step t ch = some (σ', some (.timeout w))) :
+    w = t ∧ (σ.thr t).pc = .w1 ∧ 0 < (σ.thr t).tmo := by
+  unfold Sys.step at h
+  cases hs : tstep σ.sh t (σ.thr t) ch with
+  | none => simp [hs] at h
+  | some r =>
+    obtain ⟨s', l', e⟩ := r
+    simp only [hs, Option.some.injEq, Prod.mk.injEq] at h
+    obtain ⟨_, rfl⟩ := h
+    obtain ⟨h1, h2, h3, _⟩ := timeout_origin hs
+    exact ⟨h1, h2, h3⟩
+
+/-- ... and a call that is unwinding (pcs u1, u2, u3) without an element and without a panic - i.e. is about to return
+    null - either is the non-waiting form (timeout < 0, inside EXEC) or had a timer armed (timeout > 0): with timeout
+    0 a call never returns null -/
+theorem blockprog_null_only_with_timer {σ : Sys} {es : List Ev} (h : Reach σ es) {t : Tid}
+    (hpc : (σ.thr t).pc = .u1 ∨ (σ.thr t).pc = .u2 ∨ (σ.thr t).pc = .u3)
+    (hf : (σ.thr t).found = false) (hp : (σ.thr t).panicking = false) (ht : 0 ≤ (σ.thr t).tmo) :
+    0 < (σ.thr t).tmo := by
+  obtain ⟨_, _, _, hF⟩ := reach_sim h
+  have := hF t
+  rcases hpc with hpc | hpc | hpc <;> (simp only [flagsOk, hpc] at this; exact this hf hp ht)
+
+/-- TIMEOUT 0 WAITS FOR EVER (transfer of `timeout_zero_waits_forever`): at the `select` with timeout 0 the only
+    enabled transition is the receive of a wake-up; with an empty channel the thread cannot move, whatever the
+    scheduler chooses -/
+theorem blockprog_timeout_zero_waits_forever (σ : Sys) (t : Tid) (hpc : (σ.thr t).pc = .w1)
+    (h0 : (σ.thr t).tmo = 0) (ch : Choice) :
+    (σ.sh.full t = false → σ.step t ch = none) ∧
+      ∀ σ' e, σ.step t ch = some (σ', e) → e = some (.wake t) := by
+  constructor
+  · intro hb
+    simp [Sys.step, tstep, hpc, h0, hb]
+  · intro σ' e h
+    simp only [Sys.step, tstep, hpc, h0] at h
+    split at h
+    · simp at h
+    · rename_i s' l' e' heq
+      simp only [Option.some.injEq, Prod.mk.injEq] at h
+      obtain ⟨_, rfl⟩ := h
+      split at heq
+      · simp at heq
+      · split at heq
+        · simp only [Option.some.injEq, Prod.mk.injEq] at heq; exact heq.2.2.symm
+        · simp at heq
+
+/-- ... on traces: after `block t false` the protocol rejects `timeout t` for as long as t does nothing itself, and
+    every program run is a protocol run, so no schedule emits it -/
+theorem blockprog_no_timeout_after_block_zero {σ σ' : Sys} {pre mid : List Ev} {t t' : Tid} {ch : Choice}
+    (h : Reach σ (pre ++ .block t false :: mid)) (hm : ∀ e ∈ mid, own t e = false) :
+    σ.step t' ch ≠ some (σ', some (.timeout t)) := by
+  intro hs
+  obtain ⟨bs, hr, _⟩ := blockprog_refines_block h
+  obtain ⟨bs', hr', _⟩ := blockprog_refines_block (Reach.step h hs)
+  have h0 := timeout_zero_waits_forever hr hm
+  simp only [Option.toList_some] at hr'
+  rw [runAll_snoc, hr] at hr'
+  simp only [Option.bind_some] at hr'
+  rw [h0] at hr'; cases hr'
+
+/-- KEYS ARE TRIED IN ARGUMENT ORDER (transfer of `try_in_argument_order`): `try` is emitted only by the pop inside
+    `look`, on the key at the loop index (which `look` starts at 0 and a failure advances by one), the key is not held
+    by a push, and the outcome is the one the list dictates: success iff the list has an element -/
+theorem blockprog_try_in_argument_order {σ σ' : Sys} {t w : Tid} {ch : Choice} {k : Key} {got : Bool}
+    (h : σ.step t ch = some (σ', some (.try_ w k got))) :
+    w = t ∧ (σ.thr t).pc = .l1 ∧ (σ.thr t).keys[(σ.thr t).i]? = some k ∧ σ.sh.locked k = none ∧
+      got = decide (0 < σ.sh.lists k) ∧ (got = false → (σ'.thr t).i = (σ.thr t).i + 1) := by
+  unfold Sys.step at h
+  cases hs : tstep σ.sh t (σ.thr t) ch with
+  | none => simp [hs] at h
+  | some r =>
+    obtain ⟨s', l', e⟩ := r
+    simp only [hs, Option.some.injEq, Prod.mk.injEq] at h
+    obtain ⟨rfl, rfl⟩ := h
+    obtain ⟨h1, h2, h3, h4, _, h6, h7⟩ := try_origin hs
+    exact ⟨h1, h2, h3, h4, h6, by simpa using h7⟩
+
+/-- TOKENS ARE CONSERVED (transfer of `tokens_conserved`): the protocol state reached by the emitted events counts,
+    for every waiter, at least as many wake-ups offered as consumed, and a FULL CHANNEL of a waiter between registration
+    and unregistration holds a wake-up that was offered and not consumed -/
+theorem blockprog_tokens_conserved {σ : Sys} {es : List Ev} (h : Reach σ es) :
+    ∃ bs, runAll [] es = some bs ∧
+      (∀ t st, get bs t = some st → st.woken ≤ st.notified) ∧
+      ∀ t, isBody (σ.thr t).pc = true → σ.sh.full t = true →
+        ∃ st, get bs t = some st ∧ st.woken < st.notified := by
+  obtain ⟨bs, hr, _⟩ := blockprog_refines_block h
+  refine ⟨bs, hr, fun t st hg => (tokens_conserved ⟨es, hr⟩ hg).1, fun t hb hf => ?_⟩
+  obtain ⟨bs', st, hr', hs, _, _, hbf, _⟩ := blockprog_waiter_related h hb
+  rw [hr] at hr'; cases hr'
+  exact ⟨st, hs, (tokens_conserved ⟨es, hr⟩ hs).2 (by rw [hbf, hf])⟩
+
+/-! ### unregistration on every exit path -/
+
+/-- a blocking pop, once started, stays inside blockingPop until the `Unlock` at the end of its deferred
+    removeBlockingKeys (pc u3): whichever way `look` and the wait end - element, timeout, non-waiting null, PANIC of
+    a pop - the thread goes through u1, u2, u3 ... -/
+theorem blockprog_exit_through_unregister {σ σ' : Sys} {t : Tid} {ch : Choice} {e : Option Ev}
+    (h : σ.step t ch = some (σ', e)) (hp : isPop (σ.thr t).pc = true) :
+    isPop (σ'.thr t).pc = true ∨ ((σ.thr t).pc = .u3 ∧ (σ'.thr t).pc = .idle ∧ e = some (.fin t)) := by
+  unfold Sys.step at h
+  cases hs : tstep σ.sh t (σ.thr t) ch with
+  | none => simp [hs] at h
+  | some r =>
+    obtain ⟨s', l', e'⟩ := r
+    simp only [hs, Option.some.injEq, Prod.mk.injEq] at h
+    obtain ⟨rfl, rfl⟩ := h
+    by_cases hu : (σ.thr t).pc = .u3
+    · right
+      simp only [tstep, hu, Option.some.injEq, Prod.mk.injEq] at hs
+      obtain ⟨_, rfl, rfl⟩ := hs
+      exact ⟨hu, by simp, rfl⟩
+    · left; simpa using pop_closed hs hp hu
+
+/-- ... and when it is idle again its channel is in no cList: the registry holds exactly the channels of the calls in
+    progress (`Inv.crel`: with the multiplicity of the key among the arguments) -/
+theorem blockprog_unregistered_when_idle {σ : Sys} {es : List Ev} (h : Reach σ es) {t : Tid}
+    (hpc : isPop (σ.thr t).pc = false ∨ (σ.thr t).pc = .r1 ∨ (σ.thr t).pc = .u3) (k : Key) :
+    t ∉ σ.sh.regOf k := by
+  obtain ⟨bs, _, hI⟩ := blockprog_refines_block h
+  have hC := hI.crel t k
+  have : regKeys (σ.thr t) = [] := by
+    simp only [regKeys]
+    rcases hpc with hpc | hpc | hpc
+    · cases hp : (σ.thr t).pc <;> simp [hp, isPop] at hpc ⊢
+    · simp [hpc]
+    · simp [hpc]
+  rw [this] at hC
+  exact fun hm => by have := List.count_pos_iff.2 hm; simp at hC; omega
+
+/-- while the call is between registration and unregistration its channel IS in the cList of every one of its keys:
+    a push to any of them finds it -/
+theorem blockprog_registered_while_waiting {σ : Sys} {es : List Ev} (h : Reach σ es) {t : Tid}
+    (hb : isBody (σ.thr t).pc = true) : ∀ k ∈ (σ.thr t).keys, t ∈ σ.sh.regOf k := by
+  obtain ⟨bs, _, hI⟩ := blockprog_refines_block h
+  intro k hk
+  have hC := hI.crel t k
+  have : regKeys (σ.thr t) = (σ.thr t).keys := by
+    simp only [regKeys]
+    cases hp : (σ.thr t).pc <;> simp [hp, isBody] at hb ⊢
+  rw [this] at hC
+  exact List.count_pos_iff.1 (by rw [hC]; exact List.count_pos_iff.2 hk)
+
+/-! ### the order of the HOOK CALLS (what a recorded trace contains)
+
+  `Model/BlockProgHook.lean`: the same program with the two hooks that are not atomic with the channel operation they
+  report as steps of their own - `bp-notify` BEFORE the send, `bp-wake` AFTER the receive. A run `HReach h hs es` has two
+  event sequences: `es` in the order of the operations, `hs` in the order of the hook calls. -/
+
+/-- THE HOOK-ORDER REFINEMENT.  For every hook-level run: the hook-call sequence `hs` is a run of `Block.stepLoose` -
+    the relation the recorded traces are validated with -, the operation sequence `es` is a run of the program model and
+    hence of the precise `Block.step`.  The only event for which `hs` needs the loose rule is `wake` (the proof uses
+    `step` for every other event: `lstep_agree`, `stepLoose_of_not_wake`); that it is needed is the example below. -/
+theorem blockprog_hook_order_refines_loose {h : HSys} {hs es : List Ev} (hr : HReach h hs es) :
+    (∃ hb, runAllLoose [] hs = some hb) ∧ Reach h.σ es ∧ ∃ bs, runAll [] es = some bs ∧ Inv h.σ bs := by
+  obtain ⟨⟨bs, hb, _, hl, _⟩, _, _⟩ := hreach_inv hr
+  exact ⟨⟨hb, hl⟩, hreach_reach hr, blockprog_refines_block (hreach_reach hr)⟩
+
+/-- the hook-level semantics covers every run of the program model (hooks called right next to their operations: both
+    orders coincide), so the theorem above is not vacuous -/
+theorem blockprog_run_is_hook_run {σ : Sys} {es : List Ev} (h : Reach σ es) :
+    HReach ⟨σ, [], fun _ => false⟩ es es := reach_lifts h
+
+/-- a hook-level schedule given as a list of actions (`hexec`, executable) is a hook-level run -/
+theorem blockprog_hexec_is_hook_run {acts : List HAct} {h : HSys} {hs es : List Ev}
+    (hx : hexec {} acts = some (h, hs, es)) : HReach h hs es := by
+  simpa using hexec_sound HReach.init hx
+
+/-- the schedule in which the two orders differ: waiter 1 sleeps on a; push 2 reports and sends; 1 receives; before 1
+    reports its wake, push 3 reports and sends (into the buffer 1 has just emptied); 1 reports; another client empties the
+    list; 1 looks, finds nothing, sleeps, receives the second wake-up, reports it -/
+def looseSchedule : List HAct :=
+  [.other 1 { call := .bpop ["a"] 0 }] ++ List.replicate 7 (.other 1 {}) ++
+  [.other 2 { call := .push "a" 1 }] ++ List.replicate 3 (.other 2 {}) ++ [.hookNotify 2, .send 2, .recv 1] ++
+  List.replicate 3 (.other 2 {}) ++
+  [.other 3 { call := .push "a" 1 }] ++ List.replicate 3 (.other 3 {}) ++ [.hookNotify 3, .send 3, .hookWake 1] ++
+  List.replicate 3 (.other 3 {}) ++ [.other 9 { call := .env "a" 0 false }] ++
+  List.replicate 4 (.other 1 {}) ++ [.recv 1, .hookWake 1]
+
+example : (hexec {} looseSchedule).map (fun r => (r.2.1, r.2.2)) = some (
+    -- hook order
+    [.reg 1 "a", .try_ 1 "a" false, .block 1 false, .notify 1 "a", .notify 1 "a", .wake 1,
+     .try_ 1 "a" false, .block 1 false, .wake 1],
+    -- operation order
+    [.reg 1 "a", .try_ 1 "a" false, .block 1 false, .notify 1 "a", .wake 1, .notify 1 "a",
+     .try_ 1 "a" false, .block 1 false, .wake 1]) := by decide
+
+/-- `stepLoose` IS NEEDED for the hook order: there is a hook-level run of the program whose hook-call sequence the
+    precise semantics `step` rejects (and `stepLoose`, by the theorem above, accepts) -/
+theorem blockprog_hook_order_needs_loose :
+    ∃ h hs es, HReach h hs es ∧ runAll [] hs = none ∧ (runAllLoose [] hs).isSome = true ∧
+      (runAll [] es).isSome = true := by
+  have hd : (hexec {} looseSchedule).map (fun r => (r.2.1, r.2.2)) = some (
+      [.reg 1 "a", .try_ 1 "a" false, .block 1 false, .notify 1 "a", .notify 1 "a", .wake 1,
+       .try_ 1 "a" false, .block 1 false, .wake 1],
+      [.reg 1 "a", .try_ 1 "a" false, .block 1 false, .notify 1 "a", .wake 1, .notify 1 "a",
+       .try_ 1 "a" false, .block 1 false, .wake 1]) := by decide
+  cases hx : hexec {} looseSchedule with
+  | none => simp [hx] at hd
+  | some r =>
+    obtain ⟨h, hs, es⟩ := r
+    simp only [hx, Option.map_some, Option.some.injEq, Prod.mk.injEq] at hd
+    obtain ⟨rfl, rfl⟩ := hd
+    exact ⟨h, _, _, blockprog_hexec_is_hook_run hx, by decide, by decide, by decide⟩
+
+/-! ### scenarios of the program model (non-vacuity: the hypotheses above are met by real schedules) -/
+
+/-- `n` silent-or-not steps of thread t with the default choice -/
+def steps (t : Tid) (n : Nat) : List (Tid × Choice) := List.replicate n (t, {})
+
+/-- single key, one pusher, complete: BLPOP a 0 registers, looks, sleeps (7 steps after the call: at the select with
+    an empty channel - the hypotheses of `blockprog_no_missed_wakeup`); LPUSH a x locks the key, appends, takes the
+    registry lock shared, sends, releases; the waiter wakes, looks again, pops, unregisters, leaves -/
+example : (exec {} ((1, { call := .bpop ["a"] 0 }) :: steps 1 7)).map (fun r => ((r.1.thr 1).pc, r.1.sh.full 1, r.2)) =
+    some (.w1, false, [.reg 1 "a", .try_ 1 "a" false, .block 1 false]) := by decide
+
+example : (exec {} ((1, { call := .bpop ["a"] 0 }) :: steps 1 7 ++ (2, { call := .push "a" 1 }) :: steps 2 7 ++
+    steps 1 7)).map (fun r => ((r.1.thr 1).pc, (r.1.thr 2).pc, r.1.sh.regOf "a", r.1.sh.lists "a", r.2)) =
+    some (.idle, .idle, [], 0, [.reg 1 "a", .try_ 1 "a" false, .block 1 false, .notify 1 "a", .wake 1,
+      .try_ 1 "a" true, .unreg 1 "a", .fin 1]) := by decide
+
+/-- two keys, two waiters, a timer: waiter 1 (BLPOP a b 1) and waiter 3 (BLPOP b 0) sleep; a push to b notifies both
+    (most recent registration first); 3 takes the element; 1 wakes, finds nothing, sleeps again, its timer fires -/
+example : (exec {} ((1, { call := .bpop ["a", "b"] 1 }) :: steps 1 9 ++ (3, { call := .bpop ["b"] 0 }) :: steps 3 7 ++
+    (2, { call := .push "b" 1 }) :: steps 2 8 ++ steps 3 7 ++ steps 1 6 ++ [(1, { timer := true })] ++ steps 1 4)).map
+      (fun r => ((r.1.thr 1).pc, (r.1.thr 3).pc, r.2)) =
+    some (.idle, .idle, [.reg 1 "a", .reg 1 "b", .try_ 1 "a" false, .try_ 1 "b" false, .block 1 true,
+      .reg 3 "b", .try_ 3 "b" false, .block 3 false, .notify 3 "b", .notify 1 "b",
+      .wake 3, .try_ 3 "b" true, .unreg 3 "b", .fin 3,
+      .wake 1, .try_ 1 "a" false, .try_ 1 "b" false, .block 1 true, .timeout 1, .unreg 1 "a", .unreg 1 "b",
+      .fin 1]) := by decide
+
+/-- the panic path: the key holds a value of another type, the pop panics, the deferred calls still unregister -/
+example : (exec {} ((9, { call := .env "a" 0 true }) :: (1, { call := .bpop ["b", "a"] 0 }) :: steps 1 12)).map
+      (fun r => ((r.1.thr 1).pc, r.1.sh.regOf "a", r.1.sh.regOf "b", r.1.sh.bmu, r.2)) =
+    some (.idle, [], [], {}, [.reg 1 "b", .reg 1 "a", .try_ 1 "b" false, .abort 1, .unreg 1 "b", .unreg 1 "a",
+      .fin 1]) := by decide
+
+/-- the hypotheses of `blockprog_sleeper_has_seen_every_push` with the second disjunct: waiter 1 sleeps with an empty
+    channel, the push has appended (list length 1) and is at p2, about to take the registry lock -/
+example : (exec {} ((1, { call := .bpop ["a"] 0 }) :: steps 1 7 ++ (2, { call := .push "a" 1 }) :: steps 2 1)).map
+      (fun r => ((r.1.thr 1).pc, r.1.sh.full 1, r.1.sh.lists "a", (r.1.thr 2).pc, (r.1.thr 2).key)) =
+    some (.w1, false, 1, .p2, "a") := by decide
+
+/-- WHY RECORDED TRACES NEED `stepLoose`, and for which event: the hook of `notify` is called before the send, the hook
+    of `wake` after the receive.  Channel operations: send#1, receive, send#2 (into the empty buffer), receive.  Report
+    order when the second push's hook AND send slip in between the first receive and its `wake` hook: notify, notify,
+    wake, ..., block, wake.  The precise semantics rejects the second `wake` (after the first reported `wake` the
+    modelled buffer is empty), the token-counting `stepLoose` accepts it.  Only `wake` is affected: every other event is
+    checked by `step` itself in `stepLoose`. -/
+example : runAll [] [.reg 1 "a", .try_ 1 "a" false, .block 1 false, .notify 1 "a", .notify 1 "a", .wake 1,
+    .try_ 1 "a" false, .block 1 false, .wake 1] = none := by decide
+example : (runAllLoose [] [.reg 1 "a", .try_ 1 "a" false, .block 1 false, .notify 1 "a", .notify 1 "a", .wake 1,
+    .try_ 1 "a" false, .block 1 false, .wake 1]).isSome = true := by decide
+
+/-- blocked transitions are blocked: with timeout 0 and an empty channel the thread at the select cannot move, the
+    timer cannot fire; a second registration cannot start while the first one holds the registry lock -/
+example : exec {} ((1, { call := .bpop ["a"] 0 }) :: steps 1 8) = none := by decide
+example : exec {} ((1, { call := .bpop ["a"] 0 }) :: steps 1 7 ++ [(1, { timer := true })]) = none := by decide
+example : exec {} ((1, { call := .bpop ["a"] 0 }) :: steps 1 1 ++ (2, { call := .bpop ["a"] 0 }) :: steps 2 1) = none := by
+  decide
+
+end Prog
 
 end NodisVerif.C18
